@@ -21,11 +21,16 @@ BOOKS = {
     # non-initial states: an address that has already failed 2 / 3 times in a row, last attempt 30 s ago
     'one-failed-twice': [(H1, 1, 2, 30)],
     'one-failed-thrice': [(H1, 1, 3, 30), (H2, 1, 0, None)],
+    # (only as the base of a prefix state) an address the node has given up on: 4 > 3 consecutive failures
+    'one-given-up': [(H1, 1, 4, 30)],
 }
+BASE_ONLY = {'one-given-up'}
 # non-initial start states reached by a fixed event prefix (not counted in the depth bound)
 PREFIX_EVENTS = {
     'two-greeted': ('two-hosts', [('tick', 0), ('establish', 0), ('establish', 1), ('hello', 0, 1, False), ('hello', 1, 1, False)]),
     'one-greeted-one-incoming': ('one', [('tick', 0), ('establish', 0), ('hello', 0, 1, False), ('incoming', H2, 7), ('hello', 1, 1, False)]),
+    # a given-up address in the book while another peer (incoming, greeted) may announce it or greet from its host
+    'given-up-one-incoming-greeted': ('one-given-up', [('incoming', H2, 7), ('hello', 0, 1, False)]),
 }
 ANNOUNCE = {
     'none': [],
@@ -377,7 +382,7 @@ def run(ctx):
     depth = 5 if ctx.quick else 6
     seen = set()
     frontier = []
-    for book in list(BOOKS) + list(PREFIX_EVENTS):
+    for book in [b for b in BOOKS if b not in BASE_ONLY] + list(PREFIX_EVENTS):
         w = execute(book, ())
         seen.add((book, w.canon()))
         frontier.append((book, ()))
